@@ -52,9 +52,11 @@ ASSUMPTIONS = [
 QUICK = dict(cases=420, workers=2, timecap=45)
 THOROUGH = dict(cases=60000, workers=16, timecap=600)
 REQUIRED = {"cell": 20000, "total": 1000, "additivity": 5000, "mask": 5000, "active_total": 1000, "bins": 400,
-            "periodicity": 5000, "oracle_xcheck": 300, "miss": 50, "layout": 20}
+            "periodicity": 5000, "oracle_xcheck": 300, "miss": 50, "layout": 20, "pipeline": 1000,
+            "emission_function": 1000}
 
 DELTA0 = 2.0e-8
+TANGENT_KEY = "cyl:ray-tangent-to-inner-bounding-cylinder:chord-before-tangent-point-lost"
 
 
 # ------------------------------------------------------------------------------------------------------------
@@ -584,6 +586,102 @@ class _Scene:
         return np.array(ray.trace(self.world).samples, dtype=float)
 
 
+def _check_pipelines(ctx, A, rays, geom):
+    """RayTransferPipeline2D on a VectorCamera firing exactly the case's rays, RayTransferPipeline0D on a SightLine."""
+    from raysect.optical import Point3D, Vector3D, Ray, translate, rotate_basis
+    from raysect.optical.observer import VectorCamera, SightLine
+    from raysect.core.workflow import SerialEngine
+    from cherab.tools.raytransfer import RayTransferPipeline2D, RayTransferPipeline0D
+    hit = [r for r in rays if r["an"].total_hi > 0.0 and "E_raw" in r]
+    if not hit:
+        return
+    n = len(hit)
+    o = np.empty((n, 1), dtype=object)
+    d = np.empty((n, 1), dtype=object)
+    for i, r in enumerate(hit):
+        o[i, 0] = Point3D(*[float(x) for x in r["ow"]])
+        d[i, 0] = Vector3D(*[float(x) for x in r["dw"]])
+    bins = int(A.rt.bins)
+    for kind in ("radiance", "power"):
+        pipe = RayTransferPipeline2D(kind=kind)
+        cam = VectorCamera(o, d, pipelines=[pipe], parent=A.world)
+        cam.spectral_bins = bins
+        cam.min_wavelength, cam.max_wavelength = 500.0, 501.0
+        cam.spectral_rays = 1
+        cam.pixel_samples = 2
+        cam.quiet = True
+        cam.render_engine = SerialEngine()
+        cam.observe()
+        cam.parent = None
+        mat = np.asarray(pipe.matrix)
+        ok = ctx.check(mat.shape == (n, 1, bins), "pipeline2d:matrix-shape", "RayTransferPipeline2D.matrix has the wrong shape",
+                       monitor="pipeline", shape=list(mat.shape))
+        if ok:
+            for i, r in enumerate(hit):
+                ctx.close(mat[i, 0], r["E_raw"], "pipeline2d:matrix-differs-from-traced-ray:%s" % kind,
+                          "row of the RayTransferPipeline2D matrix (VectorCamera, unit sensitivity) differs from the entries of the same ray traced directly",
+                          atol=r["sum_atol"], monitor="pipeline", ray_cls=r["cls"])
+    # 0D: a sight line along the first hitting ray; its own axis direction is traced directly for comparison
+    r = hit[0]
+    dw = Vector3D(*[float(x) for x in r["dw"]])
+    up = dw.orthogonal()
+    sens = 2.5
+    for kind in ("radiance", "power"):
+        pipe = RayTransferPipeline0D(kind=kind)
+        sl = SightLine(pipelines=[pipe], parent=A.world, sensitivity=sens,
+                       transform=translate(*[float(x) for x in r["ow"]]) * rotate_basis(dw, up))
+        sl.spectral_bins = bins
+        sl.min_wavelength, sl.max_wavelength = 500.0, 501.0
+        sl.spectral_rays = 1
+        sl.pixel_samples = 3
+        sl.quiet = True
+        sl.render_engine = SerialEngine()
+        sl.observe()
+        axis = Vector3D(0, 0, 1).transform(sl.to_root())
+        org = Point3D(0, 0, 0).transform(sl.to_root())
+        sl.parent = None
+        ref = np.array(Ray(org, axis, min_wavelength=500.0, max_wavelength=501.0, bins=bins).trace(A.world).samples)
+        if np.abs(ref - r["E_raw"]).max() > 2 * r["an"].dt + 1e-9:
+            ctx.skip("sight-line axis differs from the case ray by rounding enough to move a sample (0D pipeline not judged)")
+            continue
+        f = sens if kind == "power" else 1.0
+        ctx.close(np.asarray(pipe.matrix), f * ref, "pipeline0d:matrix-differs-from-traced-ray:%s" % kind,
+                  "RayTransferPipeline0D matrix (SightLine) differs from sensitivity x entries of the ray traced along the sight line",
+                  atol=f * r["sum_atol"], monitor="pipeline")
+
+
+def _check_emission_function(ctx, case, g, B, vmap, geom):
+    """emission_function (used with raysect's generic integrators) must add unit emissivity to the source of the cell
+    that contains the point and nothing for a cell mapped to -1."""
+    from raysect.optical import Point3D, Vector3D, Spectrum
+    rng = np.random.default_rng(case["map"]["seed"] + 17)
+    mat = B.rt.material
+    prim = B.rt._primitive
+    bins = int(B.rt.bins)
+    shape = g.shape
+    for _ in range(12):
+        idx = [int(rng.integers(0, n)) for n in shape]
+        u = rng.uniform(0.02, 0.98, size=3)
+        if g.kind == "box":
+            p = (np.array(idx) + u) * g.d
+        else:
+            r = g.ri + (idx[0] + u[0]) * g.dr
+            ph = np.radians((idx[1] + u[1]) * g.dphi + rng.integers(0, max(case["grid"]["k"], 1)) * g.period)
+            if g.nphi == 1:
+                ph = rng.uniform(0, 2 * np.pi)
+            p = np.array([r * np.cos(ph), r * np.sin(ph), (idx[2] + u[2]) * g.dz])
+        sp = Spectrum(500.0, 501.0, bins)
+        mat.emission_function(Point3D(*[float(x) for x in p]), Vector3D(0, 0, 1), sp, B.world, None, prim, prim.to_local(), prim.to_root())
+        got = np.array(sp.samples)
+        want = np.zeros(bins)
+        src = int(vmap[tuple(idx)])
+        if src >= 0:
+            want[src] = 1.0
+        ctx.check(np.array_equal(got, want), "%s:emission-function:wrong-source" % geom,
+                  "emission_function does not add unit emissivity to exactly the source of the cell containing the point",
+                  monitor="emission_function", cell=idx, source=src, got_nonzero=np.flatnonzero(got).tolist())
+
+
 def _geom_name(gd):
     if gd["kind"] == "box":
         return "box"
@@ -591,7 +689,8 @@ def _geom_name(gd):
 
 
 def _interval_check(ctx, monitor, key, what, got, lo, hi, tol, **detail):
-    """got must lie in [lo - tol, hi + tol] element-wise; margin = excess / tol."""
+    """got must lie in [lo - tol, hi + tol] element-wise; margin = excess / tol (not tracked for the known
+    tangent mechanism, whose rays are judged under their own key)."""
     got = np.asarray(got, dtype=float)
     exc = np.maximum(np.maximum(lo - got, got - hi), 0.0)
     tol = np.broadcast_to(np.asarray(tol, dtype=float), got.shape)
@@ -600,7 +699,7 @@ def _interval_check(ctx, monitor, key, what, got, lo, hi, tol, **detail):
     with np.errstate(divide="ignore", invalid="ignore"):
         ratio = np.where(exc > 0, exc / tol, 0.0)
     fin = ratio[np.isfinite(ratio)]
-    if fin.size:
+    if fin.size and key != TANGENT_KEY:
         ctx.margin(monitor, float(fin.max()))
     if bad.any():
         i = int(np.argmax(np.where(np.isfinite(got), exc - tol, np.inf)))
@@ -653,7 +752,11 @@ def run_case(case, ctx):
         o2 = R.T @ (ow - T)
         d2 = _unit(R.T @ dw)
         an = G.analyse(g, o2, d2, step, ms, delta)
-        rays.append(dict(cls=r["cls"], ow=ow, dw=dw, o=o2, d=d2, an=an))
+        # same sample points in every trace of this ray; only the order of the floating-point additions differs
+        # (res += dt over n samples, then += into the bin): n * eps * L
+        nsamp = (an.total_hi / an.dt) if an.dt > 0 else 0.0
+        rays.append(dict(cls=r["cls"], ow=ow, dw=dw, o=o2, d=d2, an=an,
+                         sum_atol=1e-13 + 4.4e-15 * (nsamp + 100.0) * an.total_hi))
 
     n_xcheck = 0
     for i, r in enumerate(rays):
@@ -662,10 +765,19 @@ def run_case(case, ctx):
         E = A.trace(r["ow"], r["dw"])
         Ecell = E[ident]
         r["E"] = Ecell
+        r["E_raw"] = E
         L = an.total_hi
         K = np.maximum(2, an.runs)
         tol = K * an.dt + atol
         key_cls = "%s:cell-chord:%s" % (geom, r["cls"])
+        key_tot = "%s:total-chord:%s" % (geom, r["cls"])
+        key_per = "%s:periodicity:%s" % (geom, r["cls"])
+        r["key_act"] = None
+        if an.tangent_inner:
+            # mechanism of its own (raysect CSG, see known findings): keep judging, but under a dedicated key
+            key_cls = key_tot = key_per = r["key_act"] = TANGENT_KEY
+            ctx.mon("tangent_to_inner_surface")
+        r["key_per"] = key_per
         if L == 0.0:
             ctx.check(bool(np.all(E == 0.0)), "%s:miss-nonzero:%s" % (geom, r["cls"]), "a ray that misses the object has non-zero entries",
                       monitor="miss", total=float(E.sum()))
@@ -678,7 +790,7 @@ def run_case(case, ctx):
         if good and exceed2.any():
             ctx.skip("cell visited > 2 times (periodic replicas): judged with visits*dt instead of 2*dt")
         t_tol = 1e-7 * L + atol
-        _interval_check(ctx, "total", "%s:total-chord:%s" % (geom, r["cls"]),
+        _interval_check(ctx, "total", key_tot,
                         "entries of the all-active map do not sum to the chord length inside the bounding primitive",
                         np.array([Ecell.sum()]), an.total_lo, an.total_hi, t_tol, ray=i, segments=an.segments, dt=an.dt)
         if an.dropped_short:
@@ -698,6 +810,10 @@ def run_case(case, ctx):
             ctx.mon("oracle_xcheck", 1)
             n_xcheck += 1
 
+    # ---------------- pipelines: the same rays observed through RayTransferPipeline2D / 0D -----------------------
+    if case.get("_caseno", 0) % 3 == 0:
+        _check_pipelines(ctx, A, rays, geom)
+
     # ---------------- periodicity: the ray rotated by the period about the axis ---------------------------
     if gd["kind"] == "cyl":
         per = np.radians(360.0 / gd["k"])
@@ -712,7 +828,7 @@ def run_case(case, ctx):
             d3 = Rz @ r["d"]
             E3 = A.trace(R @ o3 + T, _unit(R @ d3))[ident]
             width = an.hi - an.lo
-            _interval_check(ctx, "periodicity", "%s:periodicity:%s" % (geom, r["cls"]),
+            _interval_check(ctx, "periodicity", r["key_per"],
                             "entries change by more than two integration steps when the ray is rotated by a multiple of the period about the axis",
                             E3, r["E"] - width, r["E"] + width, 2 * an.dt + atol, ray=i, multiple=mult, dt=an.dt)
 
@@ -745,11 +861,13 @@ def run_case(case, ctx):
             L = an.total_hi
             ctx.close(V, want, "%s:voxel-map-additivity:%s" % (geom, path),
                       "entry of a (merged) source differs from the sum of its cells' entries under the one-source-per-cell map "
-                      "(cells mapped to -1 must contribute nothing)", atol=1e-11 * L + 1e-13, monitor="additivity", ray=i, ray_cls=r["cls"])
+                      "(cells mapped to -1 must contribute nothing)", atol=r["sum_atol"], monitor="additivity", ray=i, ray_cls=r["cls"])
             lo_a, hi_a, runs = G.active_bounds(an, active)
-            _interval_check(ctx, "active_total", "%s:active-total:voxel_map" % geom,
+            _interval_check(ctx, "active_total", r["key_act"] or "%s:active-total:voxel_map" % geom,
                             "entries do not sum to the chord length inside the active cells",
                             np.array([V.sum()]), lo_a, hi_a, (runs + 1) * an.dt + atol, ray=i, ray_cls=r["cls"], runs=runs, dt=an.dt)
+
+        _check_emission_function(ctx, case, g, B, vmap, geom)
 
     # ---------------- mask ------------------------------------------------------------------------------------
     mflat = mask.ravel()
@@ -775,10 +893,10 @@ def run_case(case, ctx):
             Mk = C.trace(r["ow"], r["dw"])
             L = an.total_hi
             ctx.close(Mk[vm[mflat]], r["E"][mflat], "%s:mask-restriction:%s" % (geom, path),
-                      "entry of an active cell under the mask differs from its entry without mask", atol=1e-11 * L + 1e-13,
+                      "entry of an active cell under the mask differs from its entry without mask", atol=r["sum_atol"],
                       monitor="mask", ray=i, ray_cls=r["cls"])
             lo_a, hi_a, runs = G.active_bounds(an, mflat)
-            _interval_check(ctx, "active_total", "%s:active-total:mask" % geom,
+            _interval_check(ctx, "active_total", r["key_act"] or "%s:active-total:mask" % geom,
                             "entries do not sum to the chord length inside the active (masked-in) cells",
                             np.array([Mk.sum()]), lo_a, hi_a, (runs + 1) * an.dt + atol, ray=i, ray_cls=r["cls"], runs=runs, dt=an.dt)
 
@@ -795,7 +913,9 @@ def run_case(case, ctx):
                 D.rt.mask = arr
                 want_map = None
         except ValueError as e:
-            ctx.check(False, "%s-setter:rejects-valid-array:%s" % (kind, case["layout"]),
+            noncontig = not arr.flags["C_CONTIGUOUS"]
+            ctx.check(False, ("%s-setter:rejects-non-C-contiguous-array" % kind) if noncontig else
+                      ("%s-setter:rejects-valid-array:%s" % (kind, case["layout"])),
                       "setter raises ValueError for a map of the right shape and values (%s)" % str(e)[:120], monitor="layout",
                       flags=str(arr.flags).replace("\n", " "), dtype=str(arr.dtype))
             return
@@ -819,5 +939,5 @@ def run_case(case, ctx):
                     want = np.zeros(nm)
                     want[np.asarray(D.rt.voxel_map).ravel()[mflat]] = r["E"][mflat]
                 ctx.close(S, want, "%s-setter:layout-changes-entries:%s" % (kind, case["layout"]),
-                          "entries differ when the same map is given in another memory layout / dtype", atol=1e-11 * r["an"].total_hi + 1e-13,
+                          "entries differ when the same map is given in another memory layout / dtype", atol=r["sum_atol"],
                           monitor="layout", ray=i)
